@@ -225,6 +225,60 @@ func (db *Database) DeleteControllerInput(controllerName string, dep controller.
 	return nil
 }
 
+// DeleteController removes all the inputs and outputs registered for the controller.
+//
+// It is used to roll back a partially registered controller.
+func (db *Database) DeleteController(controllerName string) {
+	db.mu.Lock()
+	defer db.mu.Unlock()
+
+	for resourceType, exclusiveController := range db.exclusiveOutputs {
+		if exclusiveController == controllerName {
+			delete(db.exclusiveOutputs, resourceType)
+		}
+	}
+
+	for resourceType, sharedControllers := range db.sharedOutputs {
+		sharedControllers = slices.DeleteFunc(sharedControllers, func(s string) bool {
+			return s == controllerName
+		})
+
+		if len(sharedControllers) == 0 {
+			delete(db.sharedOutputs, resourceType)
+		} else {
+			db.sharedOutputs[resourceType] = sharedControllers
+		}
+	}
+
+	for _, dep := range db.controllerInputs[controllerName] {
+		id, ok := dep.ID.Get()
+		if !ok {
+			key := namespaceType{
+				Namespace: dep.Namespace,
+				Type:      dep.Type,
+			}
+
+			db.inputLookup[key] = slices.DeleteFunc(db.inputLookup[key], func(s string) bool {
+				return s == controllerName
+			})
+		} else {
+			key := namespaceTypeID{
+				namespaceType: namespaceType{
+					Namespace: dep.Namespace,
+					Type:      dep.Type,
+				},
+				ID: id,
+			}
+
+			db.inputLookupID[key] = slices.DeleteFunc(db.inputLookupID[key], func(s string) bool {
+				return s == controllerName
+			})
+		}
+	}
+
+	delete(db.controllerInputs, controllerName)
+}
+
 // GetControllerInputs returns a list of controller dependencies.
 func (db *Database) GetControllerInputs(controllerName string) ([]controller.Input, error) {
 	db.mu.Lock()
